@@ -213,6 +213,11 @@ mod membership;
 mod network;
 mod utils;
 
+/// Verification hook: makes the (otherwise crate-private) `RaftMembership` type nameable so that an
+/// out-of-tree `TypeConfig` can use it as its `M`. Exists only with `--cfg d_engine_verif`.
+#[cfg(d_engine_verif)]
+pub use membership::RaftMembership;
+
 // ==================== Test Utilities ====================
 
 /// Standardized test suite for custom [`StateMachine`] implementations.
